@@ -32,6 +32,7 @@ import (
 	"time"
 
 	"github.com/IrineSistiana/mosproxy/internal/upstream"
+	"github.com/IrineSistiana/mosproxy/internal/upstream/transport"
 	"github.com/miekg/dns"
 )
 
@@ -106,10 +107,7 @@ func c14streamOnce(m map[string]string) c14outcome {
 		srv.close()
 	}()
 	if fault == "pooled" || fault == "idleclose" {
-		ctx, cancel := context.WithTimeout(context.Background(), c14SetupWait)
-		ok := c14do(up, ctx, c14query("plain", 0))
-		cancel()
-		if !ok {
+		if !c14setupExchange(up, c14query("plain", 0)) {
 			out.setupFailed = "first-exchange"
 			return out
 		}
@@ -123,13 +121,54 @@ func c14streamOnce(m map[string]string) c14outcome {
 			time.Sleep(5 * time.Millisecond)
 		}
 	}
-	srv.setScript(c14serverScript(script))
+	if fault == "stale" {
+		// k connections parked in the pool of a connection-reuse transport, `pidle` ones closed by the server
+		k, nIdle := 0, 0
+		for k < len(script) && script[k][0] == 'p' {
+			if script[k] == "pidle" {
+				nIdle++
+			}
+			k++
+		}
+		var okc atomic.Int64
+		var swg sync.WaitGroup
+		for i := 0; i < k; i++ {
+			swg.Add(1)
+			go func(i int) {
+				defer swg.Done()
+				if c14setupExchange(up, c14query("setup", i)) {
+					okc.Add(1)
+				}
+			}(i)
+		}
+		if !srv.waitFor(c14SetupWait, func() bool { return srv.nseen["setup"] == k }) {
+			out.setupFailed = "setup-queries"
+			return out
+		}
+		srv.release("setup")
+		swg.Wait()
+		if int(okc.Load()) != k {
+			out.setupFailed = "setup-exchanges"
+			return out
+		}
+		if rt, ok := up.(*transport.ReuseConnTransport); ok && c14reuseIdle(rt) >= 0 {
+			for i := 0; i < 300 && c14reuseIdle(rt) < k; i++ {
+				time.Sleep(time.Millisecond)
+			}
+		} else {
+			time.Sleep(40 * time.Millisecond)
+		}
+		if nIdle > 0 {
+			if srv.closeServed("setup", nIdle) != nIdle {
+				out.setupFailed = "idle-close"
+				return out
+			}
+			time.Sleep(15 * time.Millisecond)
+		}
+	}
+	srv.setScript(script)
 	a0, _ := srv.snapshot()
-	ctx, cancel := context.WithTimeout(context.Background(), time.Duration(dl)*time.Millisecond)
-	t0 := time.Now()
-	out.ok = c14do(up, ctx, c14query("victim", 0))
-	out.el = time.Since(t0)
-	cancel()
+	out.ok, out.el = c14timed(up, dl, c14query("victim", 0))
 	a1, vq := srv.snapshot()
 	out.dials, out.att = a1-a0, vq
 	out.leak = srv.leaks()
@@ -155,11 +194,7 @@ func c14wstallOnce(m map[string]string) c14outcome {
 		lc.Control = c14smallBuf
 		opt.Control = c14smallBuf
 	}
-	ln, err := lc.Listen(context.Background(), "tcp", "127.0.0.1:0")
-	if err != nil {
-		out.setupFailed = "listen"
-		return out
-	}
+	ln := c14listenTCP(&lc)
 	var mu sync.Mutex
 	var conns []net.Conn
 	go func() {
@@ -223,7 +258,7 @@ func c14wstallOnce(m map[string]string) c14outcome {
 		select {
 		case <-done:
 			out.el = time.Duration(maxEl.Load())
-		case <-time.After(12 * time.Second):
+		case <-time.After(7 * time.Second):
 			out.el = time.Hour
 		}
 	}
@@ -246,11 +281,7 @@ func c14udpOnce(m map[string]string) c14outcome {
 	script := strings.Split(m["script"], ",")
 	dl := atoi(m["dl"])
 	out := c14outcome{woke: true}
-	pc, err := net.ListenUDP("udp", &net.UDPAddr{IP: net.IPv4(127, 0, 0, 1)})
-	if err != nil {
-		out.setupFailed = "listen"
-		return out
-	}
+	pc := c14listenUDP()
 	addr := pc.LocalAddr().String()
 	sv := c14serverScript(script)
 	var vq atomic.Int64
@@ -303,19 +334,12 @@ func c14udpOnce(m map[string]string) c14outcome {
 	}
 	defer up.Close()
 	if fault == "pooled" {
-		ctx, cancel := context.WithTimeout(context.Background(), c14SetupWait)
-		ok := c14do(up, ctx, c14query("plain", 0))
-		cancel()
-		if !ok {
+		if !c14setupExchange(up, c14query("plain", 0)) {
 			out.setupFailed = "first-exchange"
 			return out
 		}
 	}
-	ctx, cancel := context.WithTimeout(context.Background(), time.Duration(dl)*time.Millisecond)
-	t0 := time.Now()
-	out.ok = c14do(up, ctx, c14query("victim", 0))
-	out.el = time.Since(t0)
-	cancel()
+	out.ok, out.el = c14timed(up, dl, c14query("victim", 0))
 	out.att = int(vq.Load())
 	return out
 }
@@ -375,11 +399,7 @@ func c14dohOnce(m map[string]string) c14outcome {
 	script := strings.Split(m["script"], ",")
 	dl := atoi(m["dl"])
 	out := c14outcome{woke: true}
-	base, err := net.Listen("tcp", "127.0.0.1:0")
-	if err != nil {
-		out.setupFailed = "listen"
-		return out
-	}
+	base := c14listenTCP(nil)
 	ln := &c14rawListener{Listener: base}
 	addr := base.Addr().String()
 	sv := c14serverScript(script)
@@ -444,6 +464,7 @@ func c14dohOnce(m map[string]string) c14outcome {
 		go hs.Serve(ln)
 	}
 	var bh *c14blackhole
+	var err error
 	switch fault {
 	case "refuse":
 		hs.Close()
@@ -475,10 +496,7 @@ func c14dohOnce(m map[string]string) c14outcome {
 		}
 	}()
 	if fault == "pooled" || fault == "idleclose" {
-		ctx, cancel := context.WithTimeout(context.Background(), c14SetupWait)
-		ok := c14do(up, ctx, c14query("plain", 0))
-		cancel()
-		if !ok {
+		if !c14setupExchange(up, c14query("plain", 0)) {
 			out.setupFailed = "first-exchange"
 			return out
 		}
@@ -487,11 +505,7 @@ func c14dohOnce(m map[string]string) c14outcome {
 			time.Sleep(30 * time.Millisecond)
 		}
 	}
-	ctx, cancel := context.WithTimeout(context.Background(), time.Duration(dl)*time.Millisecond)
-	t0 := time.Now()
-	out.ok = c14do(up, ctx, c14query("victim", 0))
-	out.el = time.Since(t0)
-	cancel()
+	out.ok, out.el = c14timed(up, dl, c14query("victim", 0))
 	return out
 }
 
@@ -599,6 +613,21 @@ func c14matrix(tr string) []c14fault {
 		add("pooled", "pfin,fsil", "ad")
 		add("pooled", "psil", "ad")
 		add("pooled", "phalf", "ad")
+		if tr == "tcp" || tr == "tls" {
+			// several stale connections in the pool of the real upstream: up to and beyond the budget
+			rep := func(tok string, k int, tail string) string {
+				return strings.TrimSuffix(strings.Repeat(tok+",", k)+tail, ",")
+			}
+			add("stale", rep("pidle", 3, "fok"), "d")
+			add("stale", rep("pidle", 6, "fok"), "d")
+			add("stale", rep("pidle", 7, "fok"), "d")
+			add("stale", rep("pidle", 12, "fok"), "d")
+			add("stale", rep("pfin", 8, "ffin"), "ad")
+			add("stale", rep("pfin", 6, "fok"), "ad")
+			add("stale", rep("prst", 7, "fok"), "ad")
+			add("stale", "pgar,pidle,pfin,prst,ffin", "d")
+			add("stale", rep("pgar", 2, "pok"), "ad")
+		}
 	}
 	return l
 }
